@@ -93,7 +93,7 @@ def one_case(ctx, prog, g, exe, backend):
             r['fails'].append('two instances of %s share key %s: parameters %s and %s' % (prog.classes[c]['name'], key, seen[(c, key)], params))
         seen[(c, key)] = params
         want = ptg_gen.inst_name(prog, c, env)
-        if printed != want:
+        if printed != want and getattr(prog, 'meta', {}).get('expect') != 'wrap':   # (corpus 003: key beyond 2^64 on purpose)
             derived = any(l['kind'] == 'D' and l['param'] for l in prog.classes[c]['locals'])
             (r['known'] if derived else r['fails']).append('key_print(make_key(%s)) printed "%s"' % (want, printed))
     r['instances'] = nkeys
@@ -120,7 +120,7 @@ def run(ctx, res, cases=None):
         for g in p.gvecs:
             work.append((p, g, exe))
     results = []
-    with concurrent.futures.ThreadPoolExecutor(max_workers=8) as ex:
+    with concurrent.futures.ThreadPoolExecutor(max_workers=5) as ex:
         futs = [ex.submit(one_case, ctx, p, g, exe, 'ht') for (p, g, exe) in work]
         for (p, g, exe), f in zip(work, futs):
             try:
